@@ -1,2 +1,3 @@
 import Sx.Model
 import Sx.Proofs
+import Sx.Props
